@@ -31,14 +31,14 @@ CHECKS = {
     "C08": dict(
         technique="provenance sets (which infoset item each stored expression derives from), raw-path identity, sibling agreement of the "
                   "text and tail policy blocks up to renaming, loop-shape rules, attribute-split guard evaluated on plain/Clark names, "
-                  "reserved-namespace constant",
+                  "reserved-namespace constant, regex-AST check of the blank-only test",
         text="Partial and the thinnest claim: field provenance, raw identity, text/tail sibling agreement, child coverage/order, "
              "attribute split and the reserved xml: prefix are decided; lxml's parsing and the whitespace policy on all strings are not.",
         note="import-export-import stability is not decided",
         ref="DESIGN.md section 3, C08"),
     "C06": dict(
         technique="positional layout extraction (writer key sequence vs reader (index, key) pairs), field-coverage set comparison with "
-                  "value provenance to the restoring sink, abstract execution of the upgrade's constant-index inserts",
+                  "value provenance to the restoring sink and guard dependence, constructor/setter sibling agreement, abstract execution of the upgrade's constant-index inserts",
         text="Partial: writer/reader agreement slot by slot, coverage of every Node field (incl. one added later) with provenance, parent "
              "links on load and the upgrade's layout algebra are decided; byte identity and Unicode fidelity are the json library's.",
         note="namespace-map replay through add_namespace is covered structurally by C13",
@@ -52,14 +52,14 @@ CHECKS = {
         ref="DESIGN.md section 3, C15"),
     "C16": dict(
         technique="may-dataflow of a WROTE marker against the failure points found by the escape analysis (validate-then-mutate incl. "
-                  "loop back edges), def-use/dominance check of the insertion index, copy provenance, loop-shape rules",
+                  "loop back edges), def-use/dominance check of the insertion index, copy provenance, loop-shape rules, guarded-entry discipline of the id register",
         text="Partial: atomic failure, in-place ordered insertion, copies-not-originals and complete cleanup are decided on all paths of "
              "expand; that the result validates is not.",
         note="independence of the copies is C12; only the documented ValueError may escape",
         ref="DESIGN.md section 3, C16"),
     "C19": dict(
         technique="escape analysis (nullable-use rule) through the dispatch table, table/tuple shape rules, declared-vs-emitted set "
-                  "comparison, threshold guards evaluated at t-1, t, t+1",
+                  "comparison, threshold guards evaluated at t-1, t, t+1, descendant text collection, latched found-flags",
         text="Partial: totality on all paths of all evaluators, the shape of what is appended, completeness of the warning set and the "
              "three documented thresholds are decided; that the emitted set equals the recommendations on every tree is not.",
         note="word counting relies on normalize()/split (library semantics)",
@@ -73,14 +73,14 @@ CHECKS = {
         ref="DESIGN.md section 3, C12"),
     "C13": dict(
         technique="must-dataflow 'map re-bound to a fresh dict' dominating every in-place namespace-map mutation in the operation alphabet, "
-                  "receiver classification of namespace writes, identity-capture ordering, guard dominance in add_child",
+                  "receiver classification of namespace writes, identity-capture ordering, must-reach of the propagation loop, guard dominance and sharing guard evaluated in add_child",
         text="Partial: the copy-on-write discipline that keeps shared namespace dicts from leaking outside the subtree is decided on all "
              "paths; the visibility semantics over whole histories is not.",
         note="fix_nsmap/set_nsmap are outside the property's alphabet (noted only); freshness idioms: {}, dict(), comprehension, deepcopy/copy, .copy()",
         ref="DESIGN.md section 3, C13"),
     "C14": dict(
         technique="marker dataflow (must-pass / must-follow) for register-on-create, discard=>unregister and unregister=>detached pairings; "
-                  "who-may-write by effect analysis; structure of delete_node_instance",
+                  "who-may-write / who-may-unregister by effect analysis; structure of delete_node_instance incl. live-iteration rule",
         text="Partial: the registration/unregistration discipline is decided on all paths of the creating and discarding operations; "
              "id uniqueness (uuid1) is runtime and not decided.",
         note="documented discarders: prune, expand, replace_child; plain remove_child (caller keeps the node) is not a discard",
@@ -94,7 +94,7 @@ CHECKS = {
         ref="DESIGN.md section 3, C18"),
     "C09": dict(
         technique="marker dataflow for insertion/parent-link pairing on all paths, who-may-write scan, guard-fact bounds for every "
-                  "subscript in shift, swap/returned-index tracking domain, escape analysis, validate-then-mutate ordering",
+                  "subscript in shift, swap/returned-index tracking domain, escape analysis, validate-then-mutate ordering, pre-order shape of the descendant queries",
         text="Partial: the pairing of child list and parent link, shift's bounds/returned index/failure discipline and "
              "validate-then-mutate are decided on all paths of Node's mutators; equivalence with a list model over all "
              "histories and the query results are not.",
@@ -115,14 +115,14 @@ CHECKS = {
         ref="DESIGN.md section 3, C03"),
     "C05": dict(
         technique="marker dataflow (dominance / must-pass) over all paths of validate.tree, loop-shape and iterable classification, "
-                  "constant agreement across the three metadata tests, dominance of child dereferences by the non-metadata outcome",
+                  "constant and subject agreement across the three metadata tests, dominance of child dereferences by the non-metadata outcome, freshness / per-call reset discipline of the matcher object",
         text="Close to complete for how node verdicts are combined: the traversal is small enough that its shape is the property; "
              "per-node verdicts are C01-C04's subject.",
         note="order-preserving snapshot idioms recognised: direct, list(), tuple(), iter(), .copy(), [:], enumerate()",
         ref="DESIGN.md section 3, C05"),
     "C01": dict(
         technique="guard-fact dataflow (cursor invariant, bounded reads), escape analysis of the matcher slice in both modes, "
-                  "marker dataflow over all paths (trailing check / sweep dominance), flag dataflow, guard conditions evaluated at boundary points",
+                  "marker dataflow over all paths (trailing check / sweep dominance, one count per matched alternative), flag dataflow, guard conditions evaluated at boundary points, first/follow analysis of every children spec (greedy-exactness preconditions)",
         text="Partial: necessary structural conditions of the content-model equivalence are decided over all paths of the matcher "
              "slice; the language equivalence of the greedy matcher itself is not decided (it would need the matcher to be run).",
         note="relies on C10's table-shape check in the same run (D-SPEC); occurrence guards are evaluated on boundary points, "
@@ -131,7 +131,7 @@ CHECKS = {
     "C02": dict(
         technique="dispatch/table set comparison, arm-to-checker kind agreement by call-graph reachability of parse primitives, "
                   "escape analysis, abstract evaluation of reject conditions over {boundaries, +-inf, NaN} with constants "
-                  "propagated from the dispatch arm",
+                  "propagated from the dispatch arm, checker guards over {none, empty, listed, unlisted} x {predicate holds, fails}",
         text="Partial: dispatch exhaustiveness, checker totality in both modes, error-code existence, and the range/NaN/infinity "
              "and mixed-content verdicts are decided; lexical acceptance of the Python/rfc3986 parsers is not.",
         note="a value is represented by the float it parses to; parser leniency is outside the claim (the property leaves it unspecified)",
